@@ -25,12 +25,12 @@ RULE = ('Include graphs of 1-6 files in a fresh temporary directory tree (sub-di
         'or new directory) and optionally raises; edit_file on single files with the same dimensions. Oracle: bytes, mtime_ns and inode of every '
         'file recorded before; afterwards a changed file holds exactly the text the harness obtains by applying the same edit to its own exact '
         '(untranslated) reading of the file, unchanged files are not rewritten, removed entries are gone, added entries exist, the mapping keys '
-        'are the normalised reachable set computed by the harness from the graph, every file is parsed exactly once, and a raising body '
+        'are the normalised reachable set computed by the harness from the graph, every file is parsed exactly once, a file with exactly one effective edit differs from its old bytes only by the shape of that edit (pure insertion for an appended directive, date characters only for a re-valued date, within one line for a re-worded comment; independent of the model operations), and a raising body '
         'leaves every file untouched. Non-trivial = >= 3 files with a cycle, diamond or glob; or CR content with an edit; or a non-absolute '
         'root spelling; or a raising body after an edit.')
 ASSUMPTIONS = ['symlinks, absolute includes under a relative root, non-UTF-8 and unwritable files are not generated (the property does not speak about them)']
 SHRINK_LISTS = ('edits',)
-REQUIRED_CLASSES = ('spelling:symlink', 'workspace-dir-with-glob-chars', 'mode:recursive', 'mode:single', 'cr-content-edited', 'spelling:bare', 'spelling:abs', 'glob', 'cycle', 'raise-after-edit',
+REQUIRED_CLASSES = ('shape:append', 'shape:tokval', 'shape:comment', 'spelling:symlink', 'workspace-dir-with-glob-chars', 'mode:recursive', 'mode:single', 'cr-content-edited', 'spelling:bare', 'spelling:abs', 'glob', 'cycle', 'raise-after-edit',
                     'removed-entry', 'added-entry')
 
 OLD_NS = 1_000_000_000 * 10 ** 9 // 10 ** 9 * 10 ** 9  # a fixed old mtime (2001)
@@ -295,6 +295,7 @@ def _run(case: dict, res: Result, tmp: str) -> Result:
     if raised is None:
         # replay the edits on the harness's own exact reading of each file
         models_h = {n: common.parse_file(texts[n]) for n in reach}
+        effective: dict = {}
         removed_h: set[str] = set()
         for e in edits:
             if mode == 'single':
@@ -305,7 +306,8 @@ def _run(case: dict, res: Result, tmp: str) -> Result:
                     break
                 name = names[e.get('file', 0) % len(names)]
             if e['kind'] in ('append', 'tokval', 'same', 'read', 'comment'):
-                apply_edit(models_h[name], e['kind'])
+                if apply_edit(models_h[name], e['kind']):
+                    effective.setdefault(name, []).append(e['kind'])
             elif e['kind'] == 'remove' and spelling == 'symlink' and os.path.normpath(name) == os.path.normpath(root):
                 pass
             elif e['kind'] == 'remove':
@@ -348,6 +350,19 @@ def _run(case: dict, res: Result, tmp: str) -> Result:
                 lost_cr = texts[name].count('\r') - b1.count(b'\r')
                 res.bad('content:cr-lost' if lost_cr > 0 and b1.replace(b'\r', b'') == expected_text[name].replace('\r', '').encode('utf-8') else 'content',
                         f'{name}: after the edit the file holds {b1[:300]!r}, expected {expected_text[name].encode("utf-8")[:300]!r}')
+            elif len(effective.get(name, ())) == 1:
+                # independent of the library's model operations (the expected text above comes from the same operations on the harness's
+                # reading): the shape of the byte difference. An appended directive is a pure insertion; a re-valued date replaces date characters
+                # (digits, '-', '/') by date characters; a re-worded one-line comment changes characters of one line only.
+                kind = effective[name][0]
+                w0, w1 = _diff_windows(b0, b1)
+                classes.add('shape:' + kind)
+                ok = (w0 == b'' if kind == 'append' else
+                      (not w0.strip(b'0123456789-/') and not w1.strip(b'0123456789-/')) or w0 == b'' if kind == 'tokval' else
+                      b'\n' not in w0 and b'\n' not in w1)
+                if not ok:
+                    res.bad(f'content-shape:{kind}', f'{name}: one {kind!r} edit, but the bytes differ by {w0[:200]!r} -> {w1[:200]!r} (outside the common prefix of '
+                            f'{len(b0) - len(w0)} bytes shared with the file as it was): characters outside the edited fragment changed')
         else:
             if b1 != b0:
                 res.bad('untouched-content' if raised is None else 'touched-after-raise', f'{name}: bytes changed although its model was not changed '
@@ -379,6 +394,20 @@ def _run(case: dict, res: Result, tmp: str) -> Result:
                       'raise-after-edit' in classes or (spelling == 'bare' and bool(changed)))
     del incs
     return res
+
+
+def _diff_windows(b0: bytes, b1: bytes) -> tuple:
+    """What is left of both texts after taking away their longest common prefix and then the longest common suffix of the rest."""
+    n = min(len(b0), len(b1))
+    i = 0
+    while i < n and b0[i] == b1[i]:
+        i += 1
+    r0, r1 = b0[i:], b1[i:]
+    n = min(len(r0), len(r1))
+    j = 0
+    while j < n and r0[len(r0) - 1 - j] == r1[len(r1) - 1 - j]:
+        j += 1
+    return r0[:len(r0) - j], r1[:len(r1) - j]
 
 
 # --------------------------------------------------------------------------- generation
